@@ -312,6 +312,79 @@ def environment_purity(chk, work):
                'hourly records must be identical in every one', mismatches=bad, branches=kinds)
 
 
+def circumstance_purity(chk, work):
+    """(g) circumstances that are neither a parameter nor part of the rural file (harness/generic.py, applied through
+    u1_util): the output of a fresh model must not depend on who looks at the objects, on the logging level, on the
+    interpreter mode, on the route the parameters take, on another model in the process or on what the caller does with
+    its own data afterwards."""
+    import u1_util as U1
+    rng = chk.rng
+    quick = chk.tier == 'quick'
+    epw = U.rp(U.EPW_SGP)
+    scen = [('shipped parameters', None, [('month', rng.choice([2, 5, 8, 11])), ('day', rng.randint(1, 28)), ('nday', 1),
+                                          ('dtsim', 300), ('sensanth', rng.choice([5, 20]))]),
+            ('custom vectors new3 (three new types listed after a DOE type)', 'new3', [('nday', 1), ('dtsim', 300)])]
+    if not quick:
+        scen += [('custom vectors revised3', 'revised3', [('nday', 1), ('dtsim', 300)]),
+                 ('custom vectors new3-reversed', 'new3-reversed', [('nday', 2), ('dtsim', 300)]),
+                 ('shipped parameters, 2 days over a month end', None, [('month', 4), ('day', 30), ('nday', 2),
+                                                                        ('dtsim', 200)])]
+    n = bad = 0
+    br = {}
+    for si, (label, custom, attrs) in enumerate(scen):
+        d = os.path.join(work, 'circ%d' % si)
+        sp = U1.spec(epw, attrs=attrs, outdir=d, outname='m.epw', custom=custom)
+        other = U1.spec(epw, attrs=[('month', 7), ('day', 2), ('nday', 1), ('dtsim', 300), ('bldheight', 30),
+                                    ('zone', '5A')], outname='other.epw', label='other canyon, other zone, other window')
+        out = U1.run_circumstances(d, sp, other, tag='c%d' % si)
+        plain = out[0][1]
+        if custom and si == 1:
+            live = U1.schedule_lists_are_live(sp)
+            chk.measurements['caller_dictionary_schedule_lists_are_the_generated_models_schedules'] = live
+            if live:
+                chk.notes.append('observation (unchanged tree, not a C05 verdict): SchDef keeps the week lists it is given and '
+                                 'generate() installs the custom SchDef object itself, so after from_dict + generate() the '
+                                 'lists inside the caller\'s ref_sch_vector dictionary ARE the schedules simulate() reads; '
+                                 'editing them in place afterwards changes the run (custom BEMDef objects are deep-copied). '
+                                 'The caller-data member leaves those lists alone.')
+        for nm, r, msgs in out:
+            n += 1
+            br[nm] = br.get(nm, 0) + 1
+            msg = None
+            if msgs:
+                msg = (msgs[0], None, 'no trace')
+            elif nm == 'plain' and r.error:
+                msg = ('the plain run did not complete (%s)' % r.stage, r.error, 'a written file')
+            elif nm not in ('plain', U1.DICT_PLAIN):
+                msg = U1.against_plain(U1.reference_for(out, nm), r)
+            if msg:
+                bad += 1
+                if bad <= 3:
+                    chk.violation('impl-violation', 'purity: the output of a fresh model depends on a circumstance that is '
+                                  'neither a parameter nor the rural file (%s)' % nm,
+                                  case={'circumstance': nm, 'route': r.route, 'parameters': label, 'attributes': attrs,
+                                        'custom configuration (s2_util.custom_config)': custom,
+                                        'BEM / Sch order in this run': [(r.info or {}).get('bem'), (r.info or {}).get('sch')],
+                                        'BEM / Sch order in the plain run': [(plain.info or {}).get('bem'),
+                                                                             (plain.info or {}).get('sch')],
+                                        'how': 'harness/u1_util.py run_circumstances(spec)'},
+                                  observed={'what': msg[0], 'this run': msg[1]}, expected={'plain run': msg[2]})
+    chk.direct('circumstances-as-hidden-inputs(observers, DEBUG, python -O, command line, neighbours, caller data)', n, n,
+               'a fresh model of the shipped parameters and one with custom reference vectors whose new types are listed '
+               'after a DOE type (thorough: three custom configurations, a 2-day month-crossing run), 1 day, run (1) plainly, '
+               '(2) while repr / str / ToString of the model and of every reachable uwg object is taken after construction, '
+               'after generate(), every 41st step of simulate(), after simulate() and after write_epw(), (3) with DEBUG '
+               'logging on the root and every uwg logger (as another model\'s set-up may have configured it), (4) in a '
+               'fresh `python -O` interpreter, (5) through `python [-O] -m uwg simulate model` (JSON of to_dict incl. the '
+               'custom vectors, also with every whole number typed without a decimal point) and `simulate param`, (6) interleaved with a different model and with the digest of all '
+               'module-level / class-level data taken before and after, (7) from the caller\'s own dictionary, which '
+               'from_dict must leave untouched and which is scribbled over after generate(); the custom vectors handed in '
+               'must keep their digest and the records kept from the run must not change when the object runs again. '
+               'Hourly records (14 + 3 fields, bit-exact) and written bytes must equal (1) - for the members that travel as a '
+               'dictionary of a model with custom vectors: the plain run of the dictionary route (an attribute re-assigned on a '
+               'custom object after construction, e.g. `cop`, is re-derived by from_dict: DESIGN 3.1)', mismatches=bad, branches=br)
+
+
 def run_full(cfg, outdir, name):
     m = U.new_model(outdir=outdir, outname=name, **cfg)
     with core.quiet():
@@ -422,5 +495,6 @@ def run(chk):
                'hourly records must be identical', mismatches=bad)
     custom_vector_purity(chk, work)
     environment_purity(chk, work)
+    circumstance_purity(chk, work)
     chk.assumptions.append('CPython, pickle and the OS are trusted; the theorem is about the abstract world '
                            'machine, its worth is the frame check (static scan + dynamic monitor)')
